@@ -100,7 +100,7 @@ class PyArrowMissingValueFeatureGroup(MissingValueFeatureGroup):
             elif imputation_method == "mode":
                 # PyArrow doesn't have a direct mode function
                 # We need to compute the mode manually
-                value_counts = pc.value_counts(source_column)
+                value_counts = pc.value_counts(pc.drop_null(source_column))  # a null is no candidate
                 if len(value_counts) > 0:
                     # Find the index with the maximum count
                     counts = value_counts.field("counts")
@@ -196,7 +196,7 @@ class PyArrowMissingValueFeatureGroup(MissingValueFeatureGroup):
             result = pc.quantile(source_column, q=0.5)
             overall_value = result[0].as_py() if len(result) > 0 else None
         elif imputation_method == "mode":
-            value_counts = pc.value_counts(source_column)
+            value_counts = pc.value_counts(pc.drop_null(source_column))
             if len(value_counts) > 0:
                 # Find the index with the maximum count
                 counts = value_counts.field("counts")
@@ -248,7 +248,7 @@ class PyArrowMissingValueFeatureGroup(MissingValueFeatureGroup):
                 result = pc.quantile(group_data, q=0.5)
                 group_value = result[0].as_py() if len(result) > 0 else None
             elif imputation_method == "mode":
-                value_counts = pc.value_counts(group_data)
+                value_counts = pc.value_counts(pc.drop_null(group_data))
                 if len(value_counts) > 0:
                     # Find the index with the maximum count
                     counts = value_counts.field("counts")
